@@ -137,7 +137,7 @@ CmpModelG(how, u, v) ==
     ELSE IF Len0(u) # Len0(v) THEN Sign(Len0(u) - Len0(v))
     ELSE CASE Tag(u) = "n" -> 0
            [] Tag(u) = "b" -> Sign(Pay(u) - Pay(v))
-           [] Tag(u) = "d" -> DateCmp(Pay(u), Pay(v))
+           [] Tag(u) \in {"d", "date"} -> DateCmp(OrdDPay(u), OrdDPay(v))
            [] Tag(u) = "s" -> StrCmp(Pay(u), Pay(v))
            [] IsNumberX(u) -> NumCmpX(how, u, v)
            [] Tag(u) \in {"t", "l"} -> CmpArrG(how, Pay(u), Pay(v), 1)
